@@ -10,8 +10,10 @@ COQ_OBLIG = ["C15/Property.v"]
 CASES_HEADER = "Require Import Nib.C15.Model Nib.C15.Spec Nib.C15.Check.\nOpen Scope string_scope."
 CASE_TYPE = "case"
 MISMATCH_FN = "mismatch"
-# C15_STRICT=1 evaluates the statement to the letter (MsgBurnNative of tf coins by a holder is then a violation)
-VIOLATES_FN = "violates_strict" if os.environ.get("C15_STRICT") else "violates"
+# The statement is evaluated to the letter ("violates_strict"): MsgBurnNative of tf coins by a holder who is not the
+# admin violates it -> open KNOWN FINDING (known_findings.json, signature {"kind": "burnnative-moves-tf-supply"}).
+# C15_LENIENT=1 evaluates the form the implementation realises (native burn of the signer's own coins allowed).
+VIOLATES_FN = "violates" if os.environ.get("C15_LENIENT") else "violates_strict"
 RULE = ("case = optional genesis denoms (renounced / foreign admin, pre-funded) + 4-12 token-factory messages "
         "(CreateDenom, Mint, Burn, ChangeAdmin, SetDenomMetadata, BurnNative) each delivered through DeliverTx, signed by "
         "current admin / former admin / other users; denoms: existing ones (any creator), 16 look-alike / malformed / non-tf "
@@ -130,11 +132,46 @@ def describe(rec):
     return {"input": rec["input"], "observed": rec["obs"]}
 
 
+_SIG_CACHE = {}
+
+
+def _lenient_holds(rec):
+    """Evaluate the lenient checker (proved sound in Spec.v) on this one record with coqc."""
+    import re, subprocess, sys, hashlib
+    key = hashlib.sha1(json.dumps([rec["input"], rec["obs"]], sort_keys=True).encode()).hexdigest()
+    if key in _SIG_CACHE:
+        return _SIG_CACHE[key]
+    chk = sys.modules.get("__main__")
+    coq = getattr(chk, "COQ", os.path.join(os.path.dirname(os.path.dirname(os.path.dirname(os.path.abspath(__file__)))), "coq"))
+    build = getattr(chk, "BUILD", "/tmp")
+    wd = os.path.join(build, "run", ID)
+    os.makedirs(wd, exist_ok=True)
+    path = os.path.join(wd, "sig_C15.v")
+    with open(path, "w") as f:
+        f.write("From Coq Require Import List ZArith String. Import ListNotations.\n" + CASES_HEADER + "\n")
+        f.write("Definition c : case := %s.\n" % to_coq_case(rec))
+        f.write("Definition L := Eval vm_compute in (violates c, mismatch c).\nPrint L.\n")
+    try:
+        p = subprocess.run(["coqc", "-Q", coq, "Nib", path], cwd=wd, stdout=subprocess.PIPE, stderr=subprocess.STDOUT,
+                           text=True, timeout=300)
+        m = re.search(r"L\s*=\s*\((true|false),\s*(true|false)\)", p.stdout)
+        res = bool(m) and m.group(1) == "false" and m.group(2) == "false"
+    except Exception:
+        res = False
+    _SIG_CACHE[key] = res
+    return res
+
+
 def signature(rec):
+    """The known finding is identified ONLY when the lenient property holds on the trace (and the model agrees with it),
+    i.e. the sole reason the statement-to-the-letter fails is a MsgBurnNative by which the signer burnt exactly the
+    stated amount of its own tf coins.  Anything else gets a different signature and is reported as a VIOLATION."""
     kinds = sorted({op["t"] for op in rec["input"]["ops"]})
     bn = any(op["t"] == "burnnative" and ob["ok"] and op.get("denom", "").startswith("tf/")
              for op, ob in zip(rec["input"]["ops"], rec["obs"]["ops"]))
-    return {"kind": "burnnative-moves-tf-supply" if bn and os.environ.get("C15_STRICT") else "tokenfactory-authority", "ops": kinds}
+    if bn and _lenient_holds(rec):
+        return {"kind": "burnnative-moves-tf-supply"}
+    return {"kind": "tokenfactory-authority", "ops": kinds}
 
 
 def input_size(inp):
